@@ -164,6 +164,40 @@ def interval_shape(ctx, form):
     ctx.observe("r", fields(r.start) + fields(r.end))
 
 
+def interval_tz(ctx, form, shape):
+    """offset-less endpoint + tz=<zone with a transition>: the missing endpoint is start.add(duration) /
+    end.subtract(duration) in that zone (calendar and clock units in one wall-clock step, construction rules)"""
+    from vf import shapes
+    from .common import make_zone, resolve_wall
+    P = ctx.P
+    val = (lambda s: shapes.digits_value(s)) if ctx.mode == "sym" else int
+    M = ctx.digits("aM", 2); D = ctx.digits("aD", 2); H = ctx.digits("ah", 2)
+    m, d, h = val(M), val(D), val(H)
+    ctx.assume(AND(m >= 1, m <= 12, d >= 1, d <= cal.days_in_month(2000, ite(AND(m >= 1, m <= 12), m, 1)), h <= 23))
+    dd = ctx.digits("uD", 1); hh = ctx.digits("uH", 2)
+    nd, nh = val(dd), val(hh)
+    ctx.assume(nd >= 1)                       # a calendar unit is present
+    o = cal.ymd2ord(2000, m, d)
+    tz, Ts, offs = make_zone(ctx, "Verif/A", o, max_days=12, shape=shape)
+    w = o * 86400 + h * 3600
+    _, _, nv = resolve_wall(w, Ts, offs, True)
+    ctx.assume(nv == 1)                       # the given endpoint is an ordinary local time
+    point = f"2000-{M}-{D}T{H}:00:00"
+    dur = f"P{dd}DT{hh}H"
+    if form == "start/duration":
+        r = P.parse(point + "/" + dur, tz=tz)
+        given, other, sign = r.start, r.end, 1
+    else:
+        r = P.parse(dur + "/" + point, tz=tz)
+        given, other, sign = r.end, r.start, -1
+    ctx.claim("type", isinstance(r, P.Interval))
+    ctx.claim("given endpoint", AND(wall_s(given) == w, given.tzinfo is tz))
+    w2 = w + sign * (nd * 86400 + nh * 3600)
+    ew, eoff, _ = resolve_wall(w2, Ts, offs, True)
+    ctx.claim("missing endpoint is add()/subtract() of the duration in the zone", AND(wall_s(other) == ew, off_seconds(other) == eoff))
+    ctx.observe("r", fields(r.start) + fields(r.end) + [off_seconds(r.start), off_seconds(r.end)])
+
+
 def cases(tier):
     out = []
     nd = 2 if tier == "quick" else 3
@@ -185,6 +219,10 @@ def cases(tier):
                       ("P#.#M", "fractional months"), ("P###########D", "too large"), ("PT##############S", "too large")):
         out.append(dict(name=f"rejected {tmpl}", fn=rejected, params=dict(text_tmpl=tmpl, why=why),
                         bounds=f"all digit assignments of {tmpl!r} (# = any digit)"))
+    for form in ("start/duration", "duration/end"):
+        for shape in ("gap", "overlap"):
+            out.append(dict(name=f"interval {form} tz=zone {shape}", fn=interval_tz, params=dict(form=form, shape=shape),
+                            bounds="all digit assignments of 2000-MM-DDThh:00:00 with PnDTnnH, tz = a zone with one transition within +-12 days"))
     for form in ("start/end", "start/duration", "duration/end"):
         out.append(dict(name=f"interval {form}", fn=interval_shape, params=dict(form=form),
                         bounds="all digit assignments of 2000-MM-DDThh:mm:00Z endpoints and PnMnnDTnnH durations"))
